@@ -643,6 +643,20 @@ func RunC07(env *Env, rep *Report) {
 			texts = append(texts, t)
 		}
 	}
+	// only ' ' (and the break codes) separates words: other Unicode
+	// white space (no-break space, tab, ideographic space) is part of its word
+	for _, t := range c07Texts(3, []string{"a\u00a0b", "a\tb", "\u3000a", "a"}, []string{" ", `\p`}) {
+		odd := false
+		for _, w := range t.Words {
+			if len(w) > 1 {
+				odd = true
+			}
+		}
+		if odd {
+			t.HasDefault = true
+			texts = append(texts, t)
+		}
+	}
 	// one FontConfig, two fonts: the same text (with control codes) formatted
 	// under font f1 first must not influence its formatting under font f2
 	for _, t := range c07Texts(3, []string{"{P}a", "b", "{P}{Q}"}, []string{" ", `\N`}) {
